@@ -60,8 +60,11 @@ def run(ctx):
         name = f"equiv_{k}"
         stakes = [2, 2, 2, 1] if k % 2 == 0 else [1, 1, 1, 1, 1, 1]
         byz = [3] if k % 2 == 0 else [(k // 2) % 6]
+        # every fourth run: a correct node lags (certificates but no blocks for 8 s) and the equivocator hands it the
+        # OTHER block of its already certified slots late
+        lag = ((byz[0] + 1) % len(stakes), 1500, 9500) if k % 4 in (2, 3) else None
         trace, summary = S.run_sim(ctx, name, stakes, byz=byz, byz_mode="equivocate", seed=ctx.seed + 100 + k,
-                                   gst=1000, chaos=500, delta=80, run_ms=20000)
+                                   gst=1000, chaos=500, delta=80, run_ms=20000, lag=lag)
         ctx.traces += 1
         ctx.notes.setdefault("equivocation_sims", []).append(
             {"name": name, "finals": summary["finals"], "panics": summary["panics"]})
